@@ -15,3 +15,6 @@ func AtSeq(string, uint64) {}
 
 // DiskFree never overrides anything without the verif tag.
 func DiskFree(string) (uint64, bool) { return 0, false }
+
+// OpFault never fails an operation without the verif tag.
+func OpFault(string, string) error { return nil }
